@@ -292,6 +292,8 @@ func (n *faultNet) hook(dir netx.Dir, idx int, frame []byte) [][]byte {
 			n.mode, n.dirs, n.until = modeBlackhole, dirMask(tr.fault.Dir), time.Now().Add(time.Duration(tr.fault.Ms)*time.Millisecond)
 		case "stall":
 			n.mode, n.until = modeStall, time.Now().Add(time.Duration(tr.fault.Ms)*time.Millisecond)
+		case "signal":
+			// no fault: the harness wants to know that this frame passes
 		}
 		n.logf("conn %d %s (%d bytes) TRIGGERS %s", cs.serial, lb, len(frame), tr.fault.Kind)
 		tr.ch <- fi
